@@ -37,6 +37,11 @@ pub fn base_value(name: &str) -> Value {
             }
         }
         v
+    } else if let Some(rel) = name.strip_prefix("convx:") {
+        // converted with the result files (--use-extra): the model carries overrides and `extra`
+        let dir = std::path::Path::new(&crate::panics::repo_root()).join(rel);
+        let m = hulc2model::collect_hulc_data(dir.to_string_lossy().as_ref(), true, true).expect("shipped project converts with extra files");
+        serde_json::from_str(&m.as_json().unwrap()).unwrap()
     } else if let Some(rel) = name.strip_prefix("conv:") {
         let bytes = crate::corpus::read_rel(rel).expect("project file");
         let text = String::from_utf8_lossy(&bytes).to_string();
